@@ -5,7 +5,7 @@
    Partial: positive semi-definiteness of the five stationary kernels (Bochner's theorem) is not
    provable with the installed libraries; it is tested numerically as support only. *)
 From Coq Require Import Reals List ZArith Lra.
-From MellonV Require Import ALists AKernels AKExpr ACovFunc AListsFacts ADocumented ADistThm AKernelsThm.
+From MellonV Require Import ALists AKernels AKExpr ACovFunc AListsFacts ADocumented ADistThm AKernelsThm APsdThm.
 Import ListNotations.
 Open Scope R_scope.
 
@@ -128,14 +128,43 @@ Theorem C05_time_cov_is_product : forall b ls lt (x y : list R) tx ty,
 Proof. exact time_cov_is_product. Qed.
 Print Assumptions C05_time_cov_is_product.
 
+(* ---- positive semi-definiteness (PARTIAL).  Full statement of the property: "Gram matrices are positive
+   semi-definite" for every kernel expression.  Proved: closure under sums, non-negative scalars and constants and
+   active_dims restriction.  NOT proved, explicit hypotheses of the last theorem: PSD-ness of the base kernels
+   (Bochner) and of entry-wise products (Schur).  quad k pts v = sum_ij v_i v_j k(p_i, p_j). *)
+Theorem C05_psd_sum : forall k1 k2, psd k1 -> psd k2 -> psd (fun x y => k1 x y + k2 x y).
+Proof. exact psd_add. Qed.
+Print Assumptions C05_psd_sum.
+
+Theorem C05_psd_scale : forall c k, 0 <= c -> psd k -> psd (fun x y => k x y * c).
+Proof. exact psd_scale. Qed.
+Print Assumptions C05_psd_scale.
+
+Theorem C05_psd_constant : forall c, 0 <= c -> psd (fun _ _ => c).
+Proof. exact psd_const. Qed.
+Print Assumptions C05_psd_constant.
+
+Theorem C05_psd_active_dims : forall k ad, psd k -> psd (fun x y => k (sel ad x) (sel ad y)).
+Proof. exact psd_sel. Qed.
+Print Assumptions C05_psd_active_dims.
+
+Theorem C05_keval_psd_partial :
+  (forall b ls, base_ok b ls -> psd (base_k b ls)) ->                                   (* kernel_psd: assumed *)
+  (forall k1 k2, psd k1 -> psd k2 -> psd (fun x y => k1 x y * k2 x y)) ->              (* hadamard_psd: assumed *)
+  forall e, psd_shape e -> psd (keval e).
+Proof. exact keval_psd_partial. Qed.
+Print Assumptions C05_keval_psd_partial.
+
 (* ---- non-vacuity of the hypotheses used above *)
 Example C05_nonvacuous :
   stationary (BRatQuad 2) /\ base_ok (BRatQuad 2) (3 / 2) /\ length [1; 2] = length [3; 4]
   /\ (0 <= 1 <= 2) /\ (3 / 2 <> 0) /\ (2 <> 0)
   /\ agree_on (resolve_dims (DList [0%Z; (-1)%Z]) 3) [1; 2; 3] [1; 7; 3]
-  /\ 0 < keval (KBase BExpQuad 1 DNone) (sel DNone [0]) (sel DNone [0]).
+  /\ 0 < keval (KBase BExpQuad 1 DNone) (sel DNone [0]) (sel DNone [0])
+  /\ psd (fun _ _ => 2) /\ psd_shape (KAddC (KMulC (KBase BMatern52 1 DNone) 3 (DInt 0%Z)) (1 / 2) DNone).
 Proof.
   repeat split; simpl; try lra; try exact I.
   - intros i [<-|[<-|[]]]; reflexivity.
   - apply ExpQuad_pos.
+  - apply psd_const. lra.
 Qed.
